@@ -283,14 +283,14 @@ func c18PoolGen(rt *rapid.T) c18Case {
 		return op
 	})
 	// plan for the n-th create (A=2: panics) and the n-th destroy (Key=1: panics)
-	if rapid.IntRange(0, 2).Draw(rt, "callbackPanics") == 0 {
+	if rapid.IntRange(0, 1).Draw(rt, "callbackPanics") == 0 {
 		nf := rapid.IntRange(1, 5).Draw(rt, "nf")
 		for i := 0; i < nf; i++ {
 			f := c18Op{}
-			if rapid.IntRange(0, 2).Draw(rt, "createPanics") == 0 {
+			if rapid.IntRange(0, 4).Draw(rt, "createPanics") == 0 {
 				f.A = 2
 			}
-			if rapid.IntRange(0, 2).Draw(rt, "destroyPanics") == 0 {
+			if rapid.IntRange(0, 1).Draw(rt, "destroyPanics") == 0 {
 				f.Key = 1
 			}
 			c.F = append(c.F, f)
